@@ -15,7 +15,7 @@ from ..scoping import NamespaceIds
 from ..text_gen import GeneratedContent, TextBlock
 
 # own modules
-from . import distillate_ns, SupportFileCfg, generate_cpp_code
+from . import distillate_ns, SupportFileCfg, generate_cpp_code, include_guarded
 
 
 def header_hh_template(cpp_ns: str) -> TextBlock:
@@ -89,6 +89,7 @@ def create_header(ns_prefix: Optional[NamespaceIds] = None) -> GeneratedContent:
                          includes=TextBlock(SystemIncludes(['memory', 'mutex'])),
                          ns_prefix=ns_prefix)
 
-    return GeneratedContent(filename=f'{file_ns}_MutexWrapped.hh',
-                            contents=str(generate_cpp_code(cfg)),
+    filename = f'{file_ns}_MutexWrapped.hh'
+    return GeneratedContent(filename=filename,
+                            contents=include_guarded(filename, str(generate_cpp_code(cfg))),
                             namespace=namespace)
